@@ -153,6 +153,7 @@ func NewLockAnalysis(w *World, rels ...string) *LockAnalysis {
 			if c := Common(in); c != nil {
 				if id, op := lockOp(c); id != "" {
 					la.universe[id+"/"+op[1:]] = true
+					la.universe[id+"/R"] = true
 				}
 			}
 		})
@@ -489,11 +490,15 @@ func (la *LockAnalysis) apply(c *ssa.CallCommon, s LS) {
 		}
 		switch op {
 		case "+W":
+			// write mode subsumes read mode (so that ∩ over a write-locked and a
+			// read-locked call site keeps the read fact)
 			s[id+"/W"] = true
+			s[id+"/R"] = true
 		case "+R":
 			s[id+"/R"] = true
 		case "-W":
 			delete(s, id+"/W")
+			delete(s, id+"/R")
 		case "-R":
 			delete(s, id+"/R")
 		}
@@ -653,6 +658,10 @@ func FieldAccesses(funcs []*ssa.Function, structName, field string) []Access {
 								if st, ok := u3.(*ssa.Store); ok && st.Addr == ssa.Value(y) {
 									out = append(out, Access{Fn: fn, In: st, Write: true, Fresh: fresh})
 									wrote = true
+								}
+								if ld, ok := u3.(*ssa.UnOp); ok && ld.Op == token.MUL {
+									// element read of the container held in the field
+									out = append(out, Access{Fn: fn, In: ld, Fresh: fresh})
 								}
 							}
 						}
